@@ -7,19 +7,27 @@ from ..common import rat, unrat
 
 PROP = "C09"
 RULE = ("seeded random Pauli sums (Y-heavy, gapped supports, constants, zero and duplicate terms, complex "
-        "coefficients k/8+(l/8)i, shuffled dict order; flavours: Z-only / X-only / Y-only / full-width terms / int and "
-        "numpy-scalar coefficients / coefficients scaled by 2^12 or 2^-10) at widths width..width+2 (a few at 6-7 qubits) "
+        "coefficients k/8+(l/8)i, shuffled dict order, explicit identity letters; flavours: Z-only / X-only / Y-only / "
+        "full-width / palindromic terms, all coefficients equal, unit coefficients, int / numpy-scalar / -0.0 coefficients, "
+        "coefficients scaled by 2^12 or 2^-10, magnitudes spanning 2^-20..2^16 inside one operator, imaginary parts of "
+        "relative size 1e-6, sums of 64-71 terms) at widths width..width+2 (a few at 6-7 qubits; n also as numpy integer) "
         "for get_sparse_operator / hermitian_conjugated+is_hermitian (operator, dense and sparse matrix inputs) / "
-        "reverse_qubit_order / get_expectation_value + expectation (vector, column vector, density matrix), random "
-        "Gaussian-rational 2^n x 2^n matrices (n<=3, a few n=4; dense, real, int, sparse, hermitian, diagonal, single "
-        "Pauli string, single entry, antisymmetric, permutation, scaled; given as lists, ndarray, list of row arrays) "
-        "for get_pauliop_from_matrix, a malformed stream (n < width, non-square, non power of two); SESSIONS: multi-step "
-        "histories of these calls on the SAME long-lived operators / wavefunctions / matrices (twin calls differing in "
-        "one argument, sibling operators differing in one component, equal-but-not-identical and term-sharing operators, "
-        "edits of coefficient / terms / amplitudes / matrix entries between calls, poisoned results, objects replaced in "
-        "place, rejected calls), every step judged against the current value of the objects; WIDE: registers of 11-13 "
-        "qubits with multi-digit qubit indices; non-trivial: some term has a Y and a gap in its support, or n > width; "
-        "for matrices: size >= 4 and not symmetric; sessions: >= 2 calls; distinct = distinct canonical JSON of the case")
+        "reverse_qubit_order / get_expectation_value + expectation (vector, column vector, LinearOperator, csc and csr "
+        "density matrix; dyadic, real, uniform, Pythagorean and 1/sqrt2 states), random Gaussian-rational 2^n x 2^n "
+        "matrices (n<=3, a few n=4, one n=5 in the thorough tier; dense, real, int, sparse, hermitian, diagonal, single "
+        "Pauli string, single entry, antisymmetric, permutation, zero, identity, complex symmetric, nearly symmetric / "
+        "Hermitian / real (part of relative size 1e-6), scaled, spanning magnitudes; given as lists, tuples, ndarray, list of "
+        "row arrays) for get_pauliop_from_matrix, a malformed stream (n < width, non-square, non power of two); SESSIONS: "
+        "multi-step histories of these calls on the SAME long-lived operators / wavefunctions / matrices (twin calls differing "
+        "in one argument, sibling operators differing in one component incl. hash twins (coefficient + 2^-22, -1 vs -2), "
+        "equal-but-not-identical, term-sharing and empty operators, edits of coefficient / terms / amplitudes / matrix entries "
+        "between calls, results overwritten in place and asked again, objects replaced in place, rejected calls, CHAINS: "
+        "the operator or matrix one call returned is the argument of the next), every step judged against the current "
+        "value of the objects; WIDE: registers of 9-14 qubits with multi-digit qubit indices whose set order differs from "
+        "numeric order (Z1*Z8), all four operator APIs; HUGE: 20-257 qubits for the term-level functions, the sentences "
+        "evaluated on sampled rows; exact (dyadic) cases are judged with a tolerance that shrinks with the smallest "
+        "magnitude present; non-trivial: some term has a Y and a gap in its support, or n > width; for matrices: size >= 4 "
+        "and not symmetric; sessions: >= 2 calls; wide/huge: always; distinct = distinct canonical JSON of the case")
 TRUSTED = [
     "scipy.sparse.kron is the Kronecker product (a scalar first factor acts as a 1x1 matrix) and stores no explicit zeros",
     "csc.tocoo().data lists the stored values column by column; csc.nonzero() lists (row, col) in row-major order",
@@ -72,12 +80,20 @@ def _coef(t):
     if ty == "nc":
         import numpy as np
         return np.complex128(complex(re, im))
+    if ty == "ni" and im == 0 and re == int(re):
+        import numpy as np
+        return np.int64(int(re))
+    if ty == "cz" and im == 0:
+        return complex(re, -0.0)
     return complex(re, im)
 
 
 def _term(t):
     PauliTerm = _mods()[1]
-    return PauliTerm({int(q): p for q, p in t["ops"]}, _coef(t))
+    d = {int(q): p for q, p in t["ops"]}
+    for q in t.get("pad_I", []):  # explicit identity letters: legal, no operation, do not count for the width
+        d.setdefault(int(q), "I")
+    return PauliTerm(d, _coef(t))
 
 
 def _op(c):
@@ -146,6 +162,8 @@ def _build_matrix(m, form="list", mutable=False):
         return np.array(rows, dtype=complex) if mutable else np.array(rows)
     if form == "rows":
         return [np.array(r, dtype=complex) if mutable else np.array(r) for r in rows]
+    if form == "tuple" and not mutable:
+        return tuple(tuple(r) for r in rows)
     return rows
 
 
@@ -204,6 +222,51 @@ def _ref_entries(terms, n):
     return ent
 
 
+def _ref_row(terms, n, r):
+    """row r of the same definition on a register of any size: {column: value} (one entry per term)"""
+    row = {}
+    for t in terms:
+        v = complex(float(unrat(t["c"][0])), float(unrat(t["c"][1])))
+        col = r
+        for q, p in t["ops"]:
+            sh = n - 1 - q
+            br = (r >> sh) & 1
+            if p in "XY":
+                col ^= 1 << sh
+                v = v * _P2[p][br][1 - br]
+            else:
+                v = v * _P2[p][br][br]
+        row[col] = row.get(col, 0) + v
+    return row
+
+
+def _row_diff(a, b):
+    return max([abs(a.get(k, 0) - b.get(k, 0)) for k in set(a) | set(b)], default=0.0)
+
+
+def _mags(terms):
+    """the non-zero real and imaginary parts of the coefficients"""
+    return [abs(float(unrat(x))) for t in terms for x in t["c"] if unrat(x) != 0]
+
+
+def _tol(c, mags, base):
+    """exact cases are computed without rounding by the library and by the reference (dyadic inputs): the tolerance
+    shrinks with the smallest magnitude present, so a tiny legitimate contribution cannot hide; otherwise relative"""
+    if c.get("exact", True):
+        return base * min([1.0] + list(mags))
+    return base * max([1.0] + list(mags))
+
+
+def _herm_ambiguous(terms):
+    """some coefficient has an imaginary part inside the library's comparison tolerances (allclose 1e-8 + 1e-5|c|,
+    hash rounding 1e-6): whether c and conj(c) are identified is the library's documented tolerance, not judged"""
+    for t in terms:
+        re, im = abs(float(unrat(t["c"][0]))), abs(float(unrat(t["c"][1])))
+        if 0 < im <= 1e-4 * max(1.0, re):
+            return True
+    return False
+
+
 def _ent_diff(a, b):
     return max([abs(a.get(k, 0) - b.get(k, 0)) for k in set(a) | set(b)], default=0.0)
 
@@ -232,17 +295,21 @@ def _is_simplified(terms):
 
 
 # --------------------------------------------------------------------------- generators
-FLAVOURS = ["ising", "x", "y", "full", "int", "np", "scaled"]
+FLAVOURS = ["ising", "x", "y", "full", "int", "np", "scaled", "uniform", "pal", "span", "tinyim", "unit"]
+EXACT_ONLY = ("scaled", "span", "tinyim")
 
 
 def _pick_flavour(rng, exact=True):
     if rng.random() < 0.55:
         return None
     f = rng.choice(FLAVOURS)
-    return None if (f == "scaled" and not exact) else f
+    return None if (f in EXACT_ONLY and not exact) else f
 
 
 def _gen_coeff(rng, exact, flavour=None):
+    if flavour == "unit":
+        re, im = rng.choice([(1, 0), (1, 0), (-1, 0), (0, 1)])
+        return [re, im], ("c" if im else rng.choice(["f", "i", "c"]))
     if flavour == "int":
         re, im = Fraction(rng.randrange(-3, 4)), Fraction(0)
         if re == 0 and rng.random() < 0.8:
@@ -262,10 +329,14 @@ def _gen_coeff(rng, exact, flavour=None):
     if re == 0 and im == 0 and rng.random() < 0.6:
         re = Fraction(1)
     ty = "c"
+    if flavour == "tinyim" and exact:
+        # an imaginary part far below 1e-5 |real| that is nevertheless part of the operator
+        re = re if re != 0 else Fraction(2)
+        im = Fraction(rng.choice([-3, -1, 1, 2, 5]), 2 ** 20)
     if flavour == "np":
-        ty = "nf" if im == 0 and rng.random() < 0.5 else "nc"
+        ty = ("ni" if re.denominator == 1 and rng.random() < 0.4 else "nf") if im == 0 and rng.random() < 0.6 else "nc"
     elif im == 0:
-        ty = rng.choice(["c", "f", "f", "i" if re.denominator == 1 else "f"])
+        ty = rng.choice(["c", "f", "f", "i" if re.denominator == 1 else "f", "cz"])
     return [rat(re), rat(im)], ty
 
 
@@ -281,8 +352,20 @@ def _gen_term(rng, maxq, exact, flavour=None):
         k = rng.choice([1, 1, 2, 2, 3, 4])
         qs = rng.sample(range(maxq), min(k, maxq))
         ops = [[q, rng.choice(letters)] for q in qs]  # Y-heavy, arbitrary dict order
+    if flavour == "pal" and maxq > 0:
+        # invariant under q -> maxq-1-q: "already reversed" shapes
+        ops = []
+        for q in range((maxq + 1) // 2):
+            if rng.random() < 0.6:
+                p = rng.choice("XYYZ")
+                ops += [[q, p]] + ([[maxq - 1 - q, p]] if maxq - 1 - q != q else [])
+        rng.shuffle(ops)
     c, ty = _gen_coeff(rng, exact, flavour)
-    return {"ops": ops, "c": c, "t": ty}
+    t = {"ops": ops, "c": c, "t": ty}
+    if rng.random() < 0.05:
+        free = [q for q in range(maxq + 3) if q not in [o[0] for o in ops]]
+        t["pad_I"] = rng.sample(free, min(len(free), rng.choice([1, 2])))
+    return t
 
 
 def _scale(terms, k):
@@ -296,8 +379,14 @@ def _gen_sum(rng, maxq, exact, hermitian=None, flavour=None):
     r = rng.random()
     if r < 0.06:
         return []
-    nt = rng.choice([1, 1, 2, 3, 4, 6])
+    nt = rng.randrange(64, 72) if flavour == "long" else rng.choice([1, 1, 2, 3, 4, 6])
     terms = [_gen_term(rng, maxq, exact, flavour) for _ in range(nt)]
+    if flavour == "uniform" and terms:
+        for t in terms:
+            t["c"], t["t"] = list(terms[0]["c"]), terms[0]["t"]
+    if flavour == "span" and exact:
+        for t in terms:  # magnitudes spanning eleven decades inside one operator
+            _scale([t], rng.choice([-20, 0, 16]))
     if rng.random() < 0.25 and terms:
         # duplicate support (non-simplified sum); sometimes cancelling
         t = dict(rng.choice(terms))
@@ -327,7 +416,8 @@ def _dedupe_keys(terms):
     return out
 
 
-MATRIX_STYLES = ["dense", "dense", "real", "int", "sparse", "hermitian", "diag", "pauli", "single", "antisym", "perm", "scaled"]
+MATRIX_STYLES = ["dense", "dense", "real", "int", "sparse", "hermitian", "diag", "pauli", "single", "antisym", "perm", "scaled",
+                 "zero", "identity", "csym", "nearsym", "nearherm", "nearreal", "span"]
 
 
 def _gen_matrix(rng, n, exact, style):
@@ -376,6 +466,43 @@ def _gen_matrix(rng, n, exact, style):
     if style == "pauli":
         t = {"ops": [[q, rng.choice("XYZ")] for q in range(n) if rng.random() < 0.7], "c": nz()}
         return [[_cz(x) for x in row] for row in _ref_matrix([t], n)]
+    if style == "zero":
+        return [[[0, 0] for _ in range(d)] for _ in range(d)]
+    if style == "identity":
+        c = nz()
+        return [[list(c) if i == j else [0, 0] for j in range(d)] for i in range(d)]
+    if style in ("csym", "nearsym", "nearherm", "nearreal"):
+        # complex symmetric (not Hermitian); real symmetric / Hermitian / real up to a part of relative size ~1e-6 that
+        # is nevertheless part of the matrix
+        m = [[e() for _ in range(d)] for _ in range(d)]
+        eps = Fraction(1, 2 ** 20)
+        for i in range(d):
+            for j in range(d):
+                re, im = unrat(m[min(i, j)][max(i, j)][0]), unrat(m[min(i, j)][max(i, j)][1])
+                if style == "csym":
+                    x = (re, im)
+                elif style == "nearsym":
+                    x = (re + (eps if i > j else 0), 0)
+                elif style == "nearherm":
+                    x = (re, (im if i < j else -im if i > j else 0) + (eps if i >= j else 0))
+                else:
+                    x = (unrat(m[i][j][0]), eps * rng.choice([-1, 1, 3]))
+                if i >= j or style == "nearreal":
+                    m[i][j] = [rat(x[0]), rat(x[1])]
+        if style != "nearreal":
+            for i in range(d):
+                for j in range(i + 1, d):
+                    if style == "csym":
+                        m[i][j] = list(m[j][i])
+                    elif style == "nearsym":
+                        m[i][j] = [rat(unrat(m[j][i][0]) - eps), 0]
+                    else:
+                        m[i][j] = [m[j][i][0], rat(-(unrat(m[j][i][1]) - eps))]
+        return m
+    if style == "span":
+        return [[[rat(Fraction(rng.randrange(-16, 17), 8) * Fraction(2) ** rng.choice([-16, 0, 12])),
+                  rat(Fraction(rng.randrange(-16, 17), 8) * Fraction(2) ** rng.choice([-16, 0, 12]))]
+                 for _ in range(d)] for _ in range(d)]
     if style == "scaled":
         f = Fraction(2) ** rng.choice([12, -10])
         return [[[rat(Fraction(rng.randrange(-16, 17), 8) * f), rat(Fraction(rng.randrange(-16, 17), 8) * f)]
@@ -407,6 +534,15 @@ def _gen_psi(rng, n, mode):
             u = rng.choice(units)
             psi[p] = [rat(Fraction(u[0], 2 ** a)), rat(Fraction(u[1], 2 ** a))]
         return psi
+    if mode == "real":
+        psi = _gen_psi(rng, n, "dyadic")
+        return [[rat(abs(unrat(a[0])) + abs(unrat(a[1]))), 0] for a in psi]
+    if mode == "uniform":
+        # all amplitudes equal: 2^(-n/2)
+        if n % 2 == 0:
+            return [[rat(Fraction(1, 2 ** (n // 2))), 0] for _ in range(d)]
+        h = Fraction(1, 2 ** ((n - 1) // 2 + 1))
+        return [[0, rat(h), 0, rat(-h)] for _ in range(d)]
     if mode == "pyth":
         # rational points: (3/5, 4/5), (5/13, 12/13), (8/17, 15/17) spread over two basis states
         a, b, c = rng.choice([(3, 4, 5), (5, 12, 13), (8, 15, 17), (7, 24, 25)])
@@ -444,6 +580,10 @@ def _gen_psi(rng, n, mode):
 #                                 {"do": "phase", "psi", "idx", "u"}                  wf[idx] = wf[idx] * u, |u| = 1
 #                                 {"do": "set_mat", "mat", "i", "j", "v"}             M[i][j] = v
 #                                 {"do": "poison", "step"}   the object RETURNED by that step is overwritten in place
+#                          chains {"do": "adopt", "step", "which": "hc"|"once"|"twice"|"sum"}  the operator RETURNED by that step
+#                                         becomes a new operator slot (its value: what that step reported, itself checked)
+#                                 {"do": "expect_of", "step", "psi", "route"}  expectation(matrix returned by that
+#                                         get_sparse_operator step, amplitudes of psi) as vector / column / density matrix
 class _Sess:
     def __init__(self, exact=True):
         self.c = {"kind": "session", "exact": exact, "pool": [], "ops": [], "psis": [], "mats": [], "steps": []}
@@ -499,7 +639,7 @@ def _other_coeff(rng, c):
 def _sibling_sum(rng, s, n):
     """a sum that differs from s in exactly one component"""
     s2 = copy.deepcopy(s)
-    m = rng.choice(["coeff", "coeff", "letter", "qubit", "order", "drop", "dup", "type"])
+    m = rng.choice(["coeff", "coeff", "letter", "qubit", "order", "drop", "dup", "type", "hashtwin", "neg12"])
     t = rng.choice(s2)
     if m == "letter" and t["ops"]:
         o = rng.choice(t["ops"])
@@ -515,6 +655,12 @@ def _sibling_sum(rng, s, n):
         s2.remove(t)
     elif m == "dup":
         s2.append({"ops": list(reversed(copy.deepcopy(t["ops"]))), "c": _other_coeff(rng, t["c"]), "t": "c"})
+    elif m == "hashtwin":
+        # equal under PauliTerm.__eq__ (allclose) with equal __hash__ (rounded at 1e-6), yet a different operator
+        t["c"] = [rat(unrat(t["c"][0]) + Fraction(1, 2 ** 22)), t["c"][1]]
+    elif m == "neg12" and unrat(t["c"][1]) == 0:
+        # hash(-1) == hash(-2) for ints and floats
+        t["c"] = [-2 if unrat(t["c"][0]) == -1 else -1, 0]
     elif m == "type" and unrat(t["c"][1]) == 0:
         t["t"] = rng.choice([x for x in ["c", "f", "nf", "nc"] if x != t.get("t", "c")])
     else:
@@ -529,9 +675,11 @@ def _gen_session(rng, tier):
     n = rng.randrange(1, (4 if big else 3) + 1)
     base = []
     herm = rng.random() < 0.3                               # real coefficients: "already Hermitian" shapes
+    r0 = rng.random()
+    fl = "pal" if r0 < 0.15 else "unit" if r0 < 0.27 else _pick_flavour(rng, exact)
     while not base:
-        base = _gen_sum(rng, n, exact, hermitian=herm, flavour=_pick_flavour(rng, exact))
-        if rng.random() < 0.5:
+        base = _gen_sum(rng, n, exact, hermitian=herm, flavour=fl)
+        if rng.random() < 0.5 or fl == "pal":
             base = _dedupe_keys(base)
     base = base[:4]
     B = _Sess(exact)
@@ -546,9 +694,18 @@ def _gen_session(rng, tier):
         B.op(share + extra)
     if rng.random() < 0.6:                                  # a PauliTerm that IS one of the terms of operator 0
         B.op([rng.choice(idx)], as_term=True)
+    if rng.random() < 0.15:                                 # hash(-1) == hash(-2)
+        B.c["pool"][idx[0]]["c"], B.c["pool"][idx[0]]["t"] = [-1, 0], rng.choice(["i", "f"])
+        tw = copy.deepcopy([B.c["pool"][k] for k in idx])
+        tw[0]["c"] = [-2, 0]
+        B.sum(tw)
     spare = [B.term(_gen_term(rng, n, exact)) for _ in range(2)]
-    nops = len(B.c["ops"])
     sums = [i for i, o in enumerate(B.c["ops"]) if not o.get("as_term")]
+    editable = list(range(len(B.c["ops"])))
+    if rng.random() < 0.25:
+        B.op([])                                            # the empty sum (never edited)
+    state = {"nops": len(B.c["ops"])}
+    no_poison = set()
     mode = "dyadic" if exact else rng.choice(["dyadic", "pyth", "sqrt2"])
     p0 = _gen_psi(rng, n, mode)
     B.psi(p0)
@@ -565,7 +722,7 @@ def _gen_session(rng, tier):
 
     def fresh():
         api = rng.choice(weights)
-        st = {"do": api, "op": rng.choice([0, 0, 0] + list(range(nops)))}
+        st = {"do": api, "op": rng.choice([0, 0, 0] + list(range(state["nops"])))}
         if api in ("sparse", "reverse"):
             st["n"] = rng.choice(ns)
         if api == "expect":
@@ -585,24 +742,67 @@ def _gen_session(rng, tier):
         elif comp == "n":
             tw["n"] = rng.choice([x for x in ns if x != st.get("n")])
         else:
-            tw["op"] = rng.choice([i for i in range(nops) if i != st["op"]])
+            tw["op"] = rng.choice([i for i in range(state["nops"]) if i != st["op"]])
         return tw
 
+    if rng.random() < 0.5:
+        # "nothing to do" shapes (already Hermitian, invariant under the reversal, ...): is the caller handed its own
+        # operator back?  call, overwrite the result, call again
+        probes = [{"do": "hc", "op": 0}, {"do": "reverse", "op": 0, "n": n}, {"do": "reverse", "op": 0, "n": None},
+                  {"do": "sparse", "op": 0, "n": n}]
+        for st in rng.sample(probes, 2):
+            k = B.step(**st)
+            B.step(do="poison", step=k)
+            B.step(**st)
     last, last_i = None, None
     for _ in range(rng.randrange(5, 14 if big else 10)):
         r = rng.random()
         again = True
-        if last is None or r >= 0.80:
+        if last is None or r >= 0.88:
             last = fresh()
             last_i = B.step(**last)
+            again = False
+        elif r >= 0.84:
+            # chain: the operator a call returned is used as an operator itself
+            src = {"do": rng.choice(["hc", "reverse"]), "op": rng.randrange(state["nops"])}
+            if src["do"] == "reverse":
+                src["n"] = rng.choice([None, n, n + 1])
+            k = B.step(**src)
+            no_poison.add(k)
+            which = "hc" if src["do"] == "hc" else rng.choice(["once", "twice"])
+            B.step(do="adopt", step=k, which=which)
+            state["nops"] += 1
+            last = fresh()
+            last["op"] = state["nops"] - 1
+            last_i = B.step(**last)
+            again = False
+            if rng.random() < 0.6:
+                # the derived operator must not follow (or lead back to) its source: edit the source, ask again
+                if src["op"] in editable:
+                    B.step(do="set_coeff", op=src["op"], term=0, c=_gen_coeff(rng, exact)[0], t="c")
+                B.step(do="hc", op=state["nops"] - 1)
+                B.step(do=src["do"], op=src["op"], **({"n": src["n"]} if "n" in src else {}))
+                again = True
+        elif r >= 0.80:
+            # expectation(matrix, state) on the very matrix an earlier conversion returned
+            j = rng.choice([0, 1, 2, 3])
+            k = B.step(do="sparse", op=rng.randrange(state["nops"]), n=psi_n[j])
+            no_poison.add(k)
+            same = [x for x, w in enumerate(psi_n) if w == psi_n[j]]
+            j2 = rng.choice([x for x in same if x != j] or [j])
+            route = rng.choice(["vector", "column", "density"])  # one route, the state changed and changed back
+            for x in (j, j2, j):
+                B.step(do="expect_of", step=k, psi=x, route=route)
+            B.step(do="expect_of", step=k, psi=j2, route=rng.choice(["vector", "column", "density"]))
             again = False
         elif r < 0.40:
             B.step(**twin(last))
             again = rng.random() < 0.6
-        elif r < 0.54 and last["do"] != "expect":
+        elif r < 0.54 and last["do"] != "expect" and last_i not in no_poison:
             B.step(do="poison", step=last_i)
         elif r < 0.64:
-            i = rng.choice([last["op"], last["op"], rng.randrange(nops)])
+            i = rng.choice([last["op"], last["op"], rng.choice(editable)])
+            i = i if i in editable else editable[0]
             # position in the operator's term list: only ops whose terms were never re-assigned are edited by position 0
             B.step(do="set_coeff", op=i, term=0, c=_gen_coeff(rng, exact)[0], t=rng.choice(["c", "c", "f", "nc"]))
         elif r < 0.71:
@@ -617,8 +817,9 @@ def _gen_session(rng, tier):
             pool = idx + spare
             k = rng.randrange(1, min(4, len(pool)) + 1)
             B.step(do="set_terms", op=i, terms=rng.sample(pool, k))
-        else:
-            i = rng.choice([last["op"], rng.randrange(nops)])
+        elif r < 0.80:
+            i = rng.choice([last["op"], rng.choice(editable)])
+            i = i if i in editable else editable[0]
             new = _sibling_sum(rng, base, n) if rng.random() < 0.6 else (_gen_sum(rng, n, exact) or copy.deepcopy(base))
             if B.c["ops"][i].get("as_term"):
                 B.step(do="replace", op=i, sum=new[:1], as_term=True)
@@ -626,7 +827,7 @@ def _gen_session(rng, tier):
                 B.step(do="replace", op=i, sum=new)
         if again:
             last_i = B.step(**last)
-    for i in range(nops):                                   # closing sweep: every operator still denotes what it says
+    for i in range(state["nops"]):                          # closing sweep: every operator still denotes what it says
         B.step(do="sparse", op=i, n=None)
     return B.case()
 
@@ -658,31 +859,63 @@ def _gen_matrix_session(rng, tier):
             B.step(do="set_mat", mat=0, i=rng.randrange(d), j=rng.randrange(d),
                    v=[rat(Fraction(rng.randrange(-16, 17), 8)), rat(Fraction(rng.randrange(-16, 17), 8))])
         last = B.step(do="from_matrix", mat=0)
+    # "expanding ... and converting back reproduces the matrix" with the library's own conversion, and the other
+    # operator APIs on the operator the expansion returned
+    B.step(do="adopt", step=last, which="sum")
+    B.step(do="sparse", op=0, n=n)
+    B.step(do="sparse", op=0, n=rng.choice([None, n + 1]))
+    B.step(do=rng.choice(["hc", "reverse"]), op=0, n=n)
+    B.psi(_gen_psi(rng, n, "dyadic"))
+    B.step(do="expect", op=0, psi=0, rev=rng.random() < 0.5)
     return B.case()
 
 
-def _gen_wide(rng, tier):
-    """registers with multi-digit qubit indices; the matrices are handled as dictionaries of their non-zero entries"""
-    big = tier == "thorough"
-    n = rng.choice([11, 12, 13] if big else [11, 12])
-    api = rng.choice(["sparse", "reverse", "hc", "expect", "expect"])
+def _adversarial_pair(rng, n):
+    """two qubit indices whose order in a Python set of ints is the reverse of their numeric order: b >= 8 lands in an
+    earlier slot of the 8-slot table than a < 8 (Z1*Z8, Z3*Z9, ...)"""
+    while True:
+        b = rng.randrange(8, n)
+        lows = [a for a in range(8) if a % 8 > b % 8]
+        if lows:
+            return rng.choice(lows), b
+
+
+def _wide_terms(rng, n, maxterms=3):
     terms = []
-    for _ in range(rng.choice([1, 2, 2, 3])):
-        qs = {rng.randrange(10, n)} if rng.random() < 0.8 else set()
-        while len(qs) < rng.choice([1, 2, 2, 3]):
-            qs.add(rng.randrange(n))
-        qs = list(qs)
+    for _ in range(rng.choice([1, 2, 2, 3][:maxterms + 1])):
+        if n > 8 and rng.random() < 0.6:
+            a, b = _adversarial_pair(rng, n)
+            qs = [a, b] + ([rng.choice([q for q in range(n) if q not in (a, b)])] if rng.random() < 0.3 else [])
+        else:
+            qs = set()
+            while len(qs) < rng.choice([1, 2, 2, 3]):
+                qs.add(rng.randrange(n))
+            qs = list(qs)
         rng.shuffle(qs)
+        same = rng.random() < 0.4                            # Z1*Z8-like: the same letter on every qubit
+        letter = rng.choice("XYZ")
         c, ty = _gen_coeff(rng, True)
-        terms.append({"ops": [[q, rng.choice("XYYZ")] for q in qs], "c": c, "t": ty})
+        terms.append({"ops": [[q, letter if same else rng.choice("XYYZ")] for q in qs], "c": c, "t": ty})
     if rng.random() < 0.3:
         terms.append({"ops": [], "c": ["3/8", "-1/4"], "t": "c"})
+    return terms
+
+
+def _gen_wide(rng, tier, api=None):
+    """registers of 9-14 qubits (multi-digit indices, set order != numeric order); the matrices are handled as
+    dictionaries of their non-zero entries"""
+    big = tier == "thorough"
+    n = rng.choice([9, 9, 10, 10, 11, 12, 13] + ([14] if big else []))
+    api = api or rng.choice(["sparse", "reverse", "hc", "expect"])
+    terms = _wide_terms(rng, n)
     if api == "hc" and rng.random() < 0.7:
         terms = _dedupe_keys(terms)
         if rng.random() < 0.5:
             for t in terms:
                 t["c"] = [t["c"][0] if unrat(t["c"][0]) != 0 else 1, 0]
     c = {"kind": "wide", "api": api, "sum": terms, "exact": True}
+    if len(terms) == 1 and rng.random() < 0.5:
+        c["as_term"] = True
     if api in ("sparse", "reverse"):
         c["n"] = rng.choice([None, n, n])
     if api == "expect":
@@ -703,6 +936,25 @@ def _gen_wide(rng, tier):
             u = rng.choice(units)
             psi.append([p, [rat(Fraction(u[0] * a, b)), rat(Fraction(u[1] * a, b))]])
         c.update({"n": n, "psi": psi, "rev": rev, "exact": len(pos) in (1, 4)})
+    return c
+
+
+def _gen_huge(rng, tier):
+    """registers far beyond what a matrix can hold (20 .. 100 qubits): the term-level functions; the property sentence is
+    evaluated on sampled rows of the 2^n-dimensional matrices"""
+    n = rng.choice([20, 33, 63, 64, 65, 100, 130, 257])
+    api = rng.choice(["reverse", "hc"])
+    terms = _wide_terms(rng, n)
+    if api == "hc" and rng.random() < 0.7:
+        terms = _dedupe_keys(terms)
+        if rng.random() < 0.5:
+            for t in terms:
+                t["c"] = [t["c"][0] if unrat(t["c"][0]) != 0 else 1, 0]
+    c = {"kind": "huge", "api": api, "sum": terms, "exact": True, "rows": [rng.randrange(2 ** n) for _ in range(6)]}
+    if len(terms) == 1 and api == "hc" and rng.random() < 0.5:
+        c["as_term"] = True
+    if api == "reverse":
+        c["n"] = rng.choice([None, n, n])
     return c
 
 
@@ -783,6 +1035,44 @@ def _corpus_sessions():
     B.step(do="expect", op=0, psi=B.psi([[0, 0], ["1/2", 0], [0, 0], [0, "1/2"], ["1/2", 0], [0, 0], [0, 0], ["1/2", 0]]), rev=True)
     B.step(do="sparse", op=0, n=None)
     out.append(B.case())
+    # unit coefficients, single strings: every result overwritten, then asked again from an equal operator
+    B = _Sess()
+    t = B.term(_T([[0, "X"], [1, "Z"]], 1, 0, "f"))
+    B.op([t], as_term=True)
+    B.op([t])
+    B.sum([_T([[1, "Z"], [0, "X"]], 1, 0, "i")])
+    for st in ({"do": "sparse", "n": 2}, {"do": "sparse", "n": None}, {"do": "hc"}, {"do": "reverse", "n": 2}):
+        for o in (0, 1):
+            k = B.step(op=o, **st)
+            B.step(do="poison", step=k)
+            B.step(op=2, **st)
+            B.step(op=o, **st)
+    out.append(B.case())
+    # chains: the operator returned by one call is the argument of the next; expectation on a returned matrix
+    B = _Sess()
+    B.sum([_T([[0, "Y"], [1, "Z"]], 1, "1/2"), _T([[1, "X"]], 2, 0, "f")])
+    B.psi([["1/2", 0], [0, "1/2"], ["-1/2", 0], ["1/2", 0]])
+    B.step(do="hc", op=0)
+    B.step(do="adopt", step=0, which="hc")
+    B.step(do="hc", op=1)
+    B.step(do="sparse", op=1, n=2)
+    B.step(do="expect_of", step=3, psi=0, route="density")
+    B.step(do="expect_of", step=3, psi=0, route="column")
+    p1 = B.psi([[0, 0], ["1/2", 0], [0, "-1/2"], [0, 0]][:1] + [[0, 1], [0, 0], [0, 0]])
+    for route in ("vector", "column", "density"):
+        for x in (0, p1, 0):
+            B.step(do="expect_of", step=3, psi=x, route=route)
+    B.step(do="reverse", op=1, n=3)
+    B.step(do="adopt", step=6, which="once")
+    B.step(do="sparse", op=2, n=None)
+    B.step(do="hc", op=2)
+    B.step(do="expect", op=1, psi=0, rev=True)
+    B.step(do="set_coeff", op=0, term=0, c=[3, "-1/4"], t="c")   # the source edited: derived operators must not follow
+    B.step(do="hc", op=1)
+    B.step(do="sparse", op=2, n=None)
+    B.step(do="reverse", op=2, n=3)
+    B.step(do="hc", op=0)
+    out.append(B.case())
     # get_pauliop_from_matrix: the caller's matrix edited in place between calls, equal copies, conjugate
     B = _Sess()
     m = [[[1, 0], [0, 1]], [[2, "-1/2"], [3, 0]]]
@@ -833,6 +1123,26 @@ def corpus():
                                                    {"ops": [[9, "Z"]], "c": [2, 0], "t": "f"}], "n": 12, "exact": True},
         {"kind": "wide", "api": "expect", "sum": [{"ops": [[10, "Z"], [2, "X"]], "c": [1, 0], "t": "f"}], "n": 11,
          "psi": [[5, [0, "3/5"]], [5 ^ (1 << 8), ["4/5", 0]]], "rev": False, "exact": False},
+        # set order of the qubit indices differs from numeric order (8 before 1, 9 before 3)
+        {"kind": "wide", "api": "sparse", "sum": [{"ops": [[1, "Z"], [8, "Z"]], "c": [1, 0], "t": "f"}], "n": None, "as_term": True, "exact": True},
+        {"kind": "wide", "api": "sparse", "sum": [{"ops": [[3, "X"], [9, "Y"]], "c": [0, "1/2"], "t": "c"}], "n": 10, "exact": True},
+        {"kind": "wide", "api": "expect", "sum": [{"ops": [[1, "Z"], [8, "X"]], "c": [2, 0], "t": "f"}], "n": 9,
+         "psi": [[3, ["1/2", 0]], [2, [0, "1/2"]], [131, ["1/2", 0]], [130, ["-1/2", 0]]], "rev": False, "exact": True},
+        {"kind": "wide", "api": "reverse", "sum": [{"ops": [[1, "Y"], [8, "Z"]], "c": [1, 1], "t": "c"}], "n": None, "exact": True},
+        {"kind": "wide", "api": "hc", "sum": [{"ops": [[3, "Y"], [9, "X"]], "c": [1, 1], "t": "c"}], "as_term": True, "exact": True},
+        {"kind": "huge", "api": "reverse", "sum": [{"ops": [[1, "Y"], [64, "Z"]], "c": [1, 1], "t": "c"}, {"ops": [[70, "X"]], "c": [2, 0], "t": "f"}],
+         "n": 100, "rows": [0, 1, 2 ** 64 + 5, 2 ** 99 + 2 ** 35 + 2 ** 29], "exact": True},
+        {"kind": "huge", "api": "hc", "sum": [{"ops": [[1, "Y"], [64, "Z"]], "c": [1, 1], "t": "c"}], "rows": [0, 2 ** 63, 2 ** 64 + 1], "exact": True},
+        # magnitudes: a tiny legitimate term next to a huge one; an imaginary part far below 1e-5 |real|
+        {"kind": "sparse", "sum": [{"ops": [[0, "X"]], "c": [65536, 0], "t": "f"}, {"ops": [[1, "Z"]], "c": ["1/8388608", 0], "t": "f"}], "n": 2, "exact": True},
+        {"kind": "expect", "sum": [{"ops": [[0, "Z"]], "c": [4, "1/1048576"], "t": "c"}], "psi": [["1/2", 0], ["1/2", 0], [0, "1/2"], [0, "-1/2"]], "rev": False, "exact": True},
+        {"kind": "hc", "sum": [{"ops": [[0, "Z"]], "c": [4, "1/1048576"], "t": "c"}], "exact": True},
+        {"kind": "from_matrix", "m": [[[1, 0], [2, 0]], [["2097153/1048576", 0], [3, 0]]], "exact": True},
+        {"kind": "from_matrix", "m": [[[0, 1], [2, 1]], [[2, 1], [3, 0]]], "form": "tuple", "exact": True},
+        {"kind": "from_matrix", "m": [[[0, 0]] * 4] * 4, "form": "ndarray", "exact": True},
+        # explicit identity letters do not count for the width
+        {"kind": "sparse", "sum": [{"ops": [[0, "Y"]], "c": [1, 1], "t": "c", "pad_I": [3]}], "n": None, "as_term": True, "exact": True},
+        {"kind": "reverse", "sum": [{"ops": [[0, "Y"]], "c": [1, 1], "t": "c", "pad_I": [3]}, {"ops": [[1, "Z"]], "c": [2, 0], "t": "ni"}], "n": None, "exact": True},
     ] + _corpus_sessions()
 
 
@@ -857,6 +1167,8 @@ def generate(rng, tier):
         c = {"kind": "sparse", "sum": s, "n": n, "exact": exact}
         if len(s) == 1 and rng.random() < 0.5:
             c["as_term"] = True
+        if n is not None and rng.random() < 0.1:
+            c["n_np"] = True                                   # the width given as a numpy integer
         cases.append(c)
     # exhaustive small scope: every single term on <= 2 (quick) / 3 (thorough) qubits at width..width+1
     lim = 3 if big else 2
@@ -889,13 +1201,17 @@ def generate(rng, tier):
         exact = rng.random() < 0.85
         n = rng.choice([0, 1, 1, 2, 2, 2, 2, 3, 3, 1, 2, 3, 1, 2])
         style = rng.choice(MATRIX_STYLES)
-        if style == "scaled":
+        if style in ("scaled", "span", "nearsym", "nearherm", "nearreal"):
             exact = True
+        if style == "span":
+            n = min(n, 2)
         cases.append({"kind": "from_matrix", "m": _gen_matrix(rng, n, exact, style), "exact": exact,
-                      "form": rng.choice(["list", "list", "ndarray", "rows"])})
+                      "form": rng.choice(["list", "list", "ndarray", "rows", "tuple"])})
     for _ in range(8 if big else 2):
         cases.append({"kind": "from_matrix", "m": _gen_matrix(rng, 4, True, rng.choice(["dense", "sparse", "hermitian", "pauli"])),
                       "exact": True, "form": rng.choice(["list", "ndarray"])})
+    if big:
+        cases.append({"kind": "from_matrix", "m": _gen_matrix(rng, 5, True, "sparse"), "exact": True, "form": "ndarray"})
     for _ in range(150 if big else 12):
         # matrices of known Pauli sums (few non-zero components)
         n = rng.choice([1, 2, 3])
@@ -921,6 +1237,8 @@ def generate(rng, tier):
         else:
             n = width + rng.choice([0, 0, 1, 2])
         c = {"kind": "reverse", "sum": s, "n": n, "exact": exact}
+        if n is not None and rng.random() < 0.1:
+            c["n_np"] = True
         if len(s) == 1 and rng.random() < 0.3:
             c["as_term"] = True
         cases.append(c)
@@ -928,8 +1246,8 @@ def generate(rng, tier):
     # ---- get_expectation_value / expectation
     for _ in range(1000 if big else 100):
         n = rng.randrange(0, (5 if big else 4) + 1)
-        mode = rng.choice(["dyadic", "dyadic", "pyth", "sqrt2"])
-        exact = mode == "dyadic" and rng.random() < 0.9
+        mode = rng.choice(["dyadic", "dyadic", "dyadic", "pyth", "sqrt2", "real", "uniform"])
+        exact = (mode in ("dyadic", "real") or (mode == "uniform" and n % 2 == 0)) and rng.random() < 0.9
         malformed = rng.random() < 0.07
         s = _gen_sum(rng, min(n + (1 if malformed else 0), maxw + 1), exact, flavour=_pick_flavour(rng, exact))
         c = {"kind": "expect", "sum": s, "psi": _gen_psi(rng, n, mode), "rev": rng.random() < 0.5, "exact": exact}
@@ -947,9 +1265,24 @@ def generate(rng, tier):
     for _ in range(150 if big else 16):
         cases.append(_gen_matrix_session(rng, tier))
 
-    # ---- wide registers (multi-digit qubit indices)
-    for _ in range(30 if big else 8):
-        cases.append(_gen_wide(rng, tier))
+    # ---- wide registers (multi-digit qubit indices, set order != numeric order), every API
+    for api in ("sparse", "reverse", "hc", "expect"):
+        for _ in range(20 if big else 6):
+            cases.append(_gen_wide(rng, tier, api))
+    for _ in range(60 if big else 12):
+        cases.append(_gen_huge(rng, tier))
+
+    # ---- long sums (>= 64 terms)
+    for kind in ("sparse", "hc", "reverse", "expect"):
+        for _ in range(5 if big else 1):
+            w = rng.choice([2, 3, 4])
+            s = _gen_sum(rng, w, True, flavour="long") or [_gen_term(rng, w, True)]
+            c = {"kind": kind, "sum": s, "exact": True}
+            if kind in ("sparse", "reverse"):
+                c["n"] = rng.choice([None, w, w + 1])
+            if kind == "expect":
+                c.update(psi=_gen_psi(rng, w, "dyadic"), rev=rng.random() < 0.5)
+            cases.append(c)
 
     # ---- dec2bin / bin2dec
     for _ in range(60 if big else 20):
@@ -967,7 +1300,7 @@ def nontrivial(c):
         return False
     if k == "session":
         return sum(1 for st in c["steps"] if st["do"] in SINGLE_KINDS) >= 2
-    if k == "wide":
+    if k in ("wide", "huge"):
         return True
     s = c["sum"]
     width = _width(s)
@@ -1043,6 +1376,7 @@ def _expect_alts(op, psi, rev, n, rho=True):
     """the other routes to the same number: expectation(matrix, state) for a vector, a column vector and a density matrix"""
     import numpy as np
     import scipy.sparse
+    import scipy.sparse.linalg
     from orquestra.quantum.operators._openfermion_utils.sparse_tools import expectation
     _, _, gso, _, _, U, _ = _mods()
     alts = {}
@@ -1058,9 +1392,24 @@ def _expect_alts(op, psi, rev, n, rho=True):
     m = gso(o, n)
     rec("direct", lambda: expectation(m, psi.copy()))
     rec("column", lambda: expectation(m, psi.copy().reshape(-1, 1)))
+    rec("linop", lambda: expectation(scipy.sparse.linalg.aslinearoperator(m), psi.copy()))
     if rho:
         rec("density", lambda: expectation(m, scipy.sparse.csc_matrix(np.outer(psi, np.conj(psi)))))
+        rec("density_csr", lambda: expectation(m, scipy.sparse.csr_matrix(np.outer(psi, np.conj(psi)))))
     return alts
+
+
+def _expect_route(m, psi, route):
+    import numpy as np
+    import scipy.sparse
+    from orquestra.quantum.operators._openfermion_utils.sparse_tools import expectation
+    if route == "column":
+        v = expectation(m, psi.copy().reshape(-1, 1))
+    elif route == "density":
+        v = expectation(m, scipy.sparse.csc_matrix(np.outer(psi, np.conj(psi))))
+    else:
+        v = expectation(m, psi.copy())
+    return {"v": _cz(v), "vf": [complex(v).real, complex(v).imag]}
 
 
 def _poison(r):
@@ -1133,6 +1482,22 @@ def _run_session(c):
                     m[st["i"]][st["j"]] = v
             elif do == "poison":
                 _poison(results[st["step"]])
+            elif do == "adopt":
+                r = results[st["step"]]
+                r = {"once": lambda: r[0], "twice": lambda: r[1]}.get(st["which"], lambda: r)()
+                if not isinstance(r, (PauliSum, PauliTerm)):
+                    raise TypeError("nothing to adopt")
+                ops.append(r)
+                as_term.append(isinstance(r, PauliTerm))
+            elif do == "expect_of":
+                m = results[st["step"]]
+                if m is None:
+                    out = {"err": "err:value"}
+                else:
+                    try:
+                        out = _expect_route(m, np.array(wfs[st["psi"]].amplitudes, dtype=complex), st["route"])
+                    except ValueError as e:
+                        out = {"err": "err:value", "msg": str(e)[:100]}
             else:
                 raise AssertionError("unknown step " + do)
         except Exception as e:
@@ -1157,7 +1522,7 @@ def _run_wide(c):
     if api == "reverse":
         return _do_reverse(op, c.get("n"))[0]
     if api == "hc":
-        return _do_hc(op, False)[0]
+        return _do_hc(op, bool(c.get("as_term")))[0]
     n = c["n"]
     psi = np.zeros(2 ** n, dtype=complex)
     for p, a in c["psi"]:
@@ -1168,6 +1533,13 @@ def _run_wide(c):
     return out
 
 
+def _n_arg(c):
+    if c.get("n") is not None and c.get("n_np"):
+        import numpy as np
+        return np.int64(c["n"])
+    return c.get("n")
+
+
 def run_impl(c):
     import numpy as np
     PauliSum, PauliTerm, gso, hconj, isherm, U, Wavefunction = _mods()
@@ -1176,8 +1548,12 @@ def run_impl(c):
         return _run_session(c)
     if k == "wide":
         return _run_wide(c)
+    if k == "huge":
+        if c["api"] == "reverse":
+            return _do_reverse(_op(c), c.get("n"))[0]
+        return _do_hc(_op(c), bool(c.get("as_term")))[0]
     if k == "sparse":
-        return _do_sparse(_op(c), c.get("n"))[0]
+        return _do_sparse(_op(c), _n_arg(c))[0]
     if k == "hc":
         out = _do_hc(_op(c), bool(c.get("as_term")))[0]
         w = _width(c["sum"])
@@ -1198,7 +1574,7 @@ def run_impl(c):
     if k == "from_matrix":
         return _do_from_matrix(_build_matrix(c["m"], c.get("form", "list")))[0]
     if k == "reverse":
-        return _do_reverse(_op(c), c.get("n"))[0]
+        return _do_reverse(_op(c), _n_arg(c))[0]
     if k == "expect":
         psi = np.array(_psi_complex(c["psi"]), dtype=complex)
         wf = Wavefunction(psi.copy())
@@ -1216,15 +1592,21 @@ def run_impl(c):
 
 
 # --------------------------------------------------------------------------- the harness's book-keeping of a session
-def _replay(c):
+STOP = "stop"
+
+
+def _replay(c, out=None):
     """For each step the equivalent single call on the CURRENT value of the objects (None for steps that only edit an
-    object).  Term objects shared between operators are shared cells here, exactly as the real objects are built."""
+    object).  Term objects shared between operators are shared cells here, exactly as the real objects are built.
+    An adopted operator (the object a call returned) is booked with the value that call reported (which the oracle has
+    checked at that step).  The list ends with STOP where the book-keeping cannot go on."""
+    outs = (out or {}).get("steps", [])
     exact = c.get("exact", True)
     cells = [copy.deepcopy(t) for t in c["pool"]]
     ops = [{"cells": [cells[k] for k in o["terms"]], "as_term": bool(o.get("as_term"))} for o in c["ops"]]
     psis = [copy.deepcopy(p) for p in c.get("psis", [])]
     mats = [{"m": copy.deepcopy(m["m"]), "form": m.get("form", "list")} for m in c.get("mats", [])]
-    out = []
+    res, eqs_by_step = [], {}
     for st in c["steps"]:
         do, eq = st["do"], None
         if do in ("sparse", "hc", "reverse", "expect"):
@@ -1250,8 +1632,22 @@ def _replay(c):
             psis[st["psi"]][st["idx"]] = _phase(psis[st["psi"]][st["idx"]], st["u"])
         elif do == "set_mat":
             mats[st["mat"]]["m"][st["i"]][st["j"]] = list(st["v"])
-        out.append(eq)
-    return out
+        elif do == "adopt":
+            src = outs[st["step"]] if st["step"] < len(outs) else {}
+            got = src.get(st["which"])
+            if not isinstance(got, list) or "exc" in (outs[len(res)] if len(res) < len(outs) else {"exc": 1}):
+                res.append(STOP)
+                return res
+            ops.append({"cells": [{"ops": t["ops"], "c": list(t["c"]), "t": "c"} for t in got], "as_term": bool(src.get("is_term"))})
+        elif do == "expect_of":
+            src = eqs_by_step.get(st["step"])
+            if src is not None:
+                w = _width(src["sum"])
+                eq = {"kind": "expect_of", "sum": src["sum"], "n": w if src.get("n") is None else src["n"],
+                      "psi": copy.deepcopy(psis[st["psi"]]), "route": st["route"], "exact": exact}
+        eqs_by_step[len(res)] = eq
+        res.append(eq)
+    return res
 
 
 def _describe(st):
@@ -1282,6 +1678,8 @@ def _requests_single(c):
         return [("reverse", {"sum": _jsum(c["sum"]), "n": n})]
     if k == "expect":
         return [("expect", {"sum": _jsum(c["sum"]), "psi": c["psi"], "rev": c["rev"]})]
+    if k == "expect_of":
+        return [("expect", {"sum": _jsum(c["sum"]), "psi": c["psi"], "rev": False})]
     if k == "bits":
         return [("bits", {"number": c["number"], "length": c["length"]})]
     return []
@@ -1291,11 +1689,17 @@ def requests(c, out):
     k = c["kind"]
     if k == "session":
         # the model is a function of the arguments only: every call of the history is answered from the current value
-        return [r for eq in _replay(c) if eq is not None for r in _requests_single(eq)]
-    if k == "wide":
-        # term-level functions are answered by the model; the 2^11..2^13-dimensional matrices are left to the oracle
+        rs = []
+        for eq in _replay(c, out):
+            if eq == STOP:
+                break
+            if eq is not None:
+                rs += _requests_single(eq)
+        return rs
+    if k in ("wide", "huge"):
+        # term-level functions are answered by the model; the 2^9..2^14-dimensional matrices are left to the oracle
         if c["api"] in ("reverse", "hc"):
-            return _requests_single({"kind": c["api"], "sum": c["sum"], "n": c.get("n")})
+            return _requests_single({"kind": c["api"], "sum": c["sum"], "n": c.get("n"), "as_term": c.get("as_term")})
         return []
     return _requests_single(c)
 
@@ -1349,7 +1753,7 @@ def _compare_single(c, out, resp):
         mh = [r["hc"]] if c.get("as_term") else r["hc"]
         if not _sum_eq(mh, out["hc"], exact):
             return f"hermitian_conjugated: impl {out['hc']} model {mh}"
-        if bool(r["herm"]) != out["herm"]:
+        if bool(r["herm"]) != out["herm"] and not _herm_ambiguous(c["sum"]):
             return f"is_hermitian: impl {out['herm']} model {r['herm']}"
     elif k == "from_matrix":
         if isinstance(r, str) or "err" in out:
@@ -1363,7 +1767,7 @@ def _compare_single(c, out, resp):
             return f"reverse_qubit_order: impl {out['once']} model {r['once']}"
         if not _sum_eq(r["twice"], out["twice"], exact):
             return f"reverse_qubit_order twice: impl {out['twice']} model {r['twice']}"
-    elif k == "expect":
+    elif k in ("expect", "expect_of"):
         if isinstance(r, str) or "err" in out:
             return None if out.get("err") == r else f"get_expectation_value: impl {out.get('err', out.get('vf'))} model {str(r)[:80]}"
         if not _scal_eq(r, out["v"], exact):
@@ -1385,7 +1789,9 @@ def compare(c, out, resp):
         if "steps" not in out:
             return f"session: implementation raised {out}"
         it = iter(resp)
-        for i, (st, eq, o) in enumerate(zip(c["steps"], _replay(c), out["steps"])):
+        for i, (st, eq, o) in enumerate(zip(c["steps"], _replay(c, out), out["steps"])):
+            if eq == STOP:
+                return None
             if eq is None:
                 if "exc" in o and st["do"] != "poison":
                     return None  # an edit of the harness's own objects was refused: nothing more to compare
@@ -1394,8 +1800,9 @@ def compare(c, out, resp):
             if msg:
                 return f"session step {i} {_describe(st)}: {msg}"
         return None
-    if k == "wide":
-        return _compare_single({"kind": c["api"], "sum": c["sum"], "n": c.get("n"), "exact": c.get("exact", True)}, out, resp)
+    if k in ("wide", "huge"):
+        return _compare_single({"kind": c["api"], "sum": c["sum"], "n": c.get("n"), "as_term": c.get("as_term"),
+                                "exact": c.get("exact", True)}, out, resp)
     return _compare_single(c, out, resp)
 
 
@@ -1425,7 +1832,7 @@ def _oracle_single(c, out):
             return ("from-matrix-roundtrip", f"expansion of a {d}x{d} matrix acts on qubit {_width(terms) - 1}")
         want = _mat_of(m)
         diff = _maxdiff(_ref_matrix(terms, n), want)
-        if diff > 1e-7 * max(1.0, float(np.max(np.abs(want)))):
+        if diff > _tol(c, [abs(x) for x in want.flatten() if x != 0], 1e-7):
             return ("from-matrix-roundtrip", f"Pauli expansion converted back differs from the matrix by {diff:.3g}")
         return None
 
@@ -1441,7 +1848,7 @@ def _oracle_single(c, out):
         got = _mat_of(out["m"])
         want = _ref_matrix(s, n)
         diff = _maxdiff(got, want)
-        if diff > TOL * max(1.0, float(np.max(np.abs(want))) if want.size else 1.0):
+        if diff > _tol(c, _mags(s), TOL):
             sig = "sparse-zero-operator" if not s else ("sparse-padded" if n > width else "sparse-definition")
             return (sig, f"get_sparse_operator(op, {c.get('n')}) differs from the tensor-product definition on {n} qubits by {diff:.3g}")
         return None
@@ -1450,7 +1857,7 @@ def _oracle_single(c, out):
             return ("hc-raise", f"hermitian_conjugated / is_hermitian raised: {out}")
         n = width
         a = _ref_matrix(s, n)
-        scale = max(1.0, float(np.max(np.abs(a))))
+        scale = _tol(c, _mags(s), 1.0)
         terms = _terms_from(out["hc"])
         if _width(terms) > n:
             return ("hc-matrix", "hermitian conjugate acts on more qubits than the operator")
@@ -1482,7 +1889,7 @@ def _oracle_single(c, out):
         if "once" not in out:
             return ("reverse-raise", f"reverse_qubit_order raised for width {width}, n={n}: {out}")
         a = _ref_matrix(s, n)
-        scale = max(1.0, float(np.max(np.abs(a))))
+        scale = _tol(c, _mags(s), 1.0)
         t1, t2 = _terms_from(out["once"]), _terms_from(out["twice"])
         if _width(t1) > n or _width(t2) > n:
             return ("reverse-once", "reversed operator acts outside the register")
@@ -1507,12 +1914,25 @@ def _oracle_single(c, out):
             return ("expectation-raise", f"get_expectation_value raised: {out}")
         psi = np.array(_psi_complex(c["psi"]), dtype=complex)
         a = _ref_matrix(s, n)
-        scale = max(1.0, float(np.max(np.abs(a))))
+        scale = _tol(c, _mags(s), 1.0)
         if c["rev"]:
             perm = [_bitrev(i, n) for i in range(2 ** n)]
             a = a[np.ix_(perm, perm)]
         want = complex(np.conj(psi) @ (a @ psi))
         return _judge_expectation(c, out, want, scale)
+    if k == "expect_of":
+        n = c["n"]
+        if n < width or len(c["psi"]) != 2 ** n:
+            return None
+        if "v" not in out:
+            return ("expectation-raise", f"expectation(matrix returned by get_sparse_operator, {c['route']} state) raised: {out}")
+        psi = np.array(_psi_complex(c["psi"]), dtype=complex)
+        want = complex(np.conj(psi) @ (_ref_matrix(s, n) @ psi))
+        got = complex(out["vf"][0], out["vf"][1])
+        if abs(want - got) > 1e-7 * _tol(c, _mags(s), 1.0):
+            return ("expectation-" + c["route"], f"expectation(matrix returned by get_sparse_operator(op, {n}), {c['route']} state) = {got}, "
+                                                 f"quadratic form of the state with the operator's matrix = {want}")
+        return None
     return None
 
 
@@ -1591,11 +2011,65 @@ def _oracle_wide(c, out):
     return None
 
 
+def _oracle_huge(c, out):
+    """sampled rows of matrices too large to hold: row r of the result against the property sentence"""
+    s, api = c["sum"], c["api"]
+    width = _width(s)
+    n = width if c.get("n") is None else c["n"]
+    if "exc" in out:
+        return ("huge-raise", f"{api} raised on a {n}-qubit register: {out}")
+    tol = 1e-7 * _tol(c, _mags(s), 1.0)
+    if api == "reverse":
+        if "once" not in out:
+            return ("huge-raise", f"reverse_qubit_order raised for width {width}, n={n}: {out}")
+        t1, t2 = _terms_from(out["once"]), _terms_from(out["twice"])
+        if _width(t1) > n or _width(t2) > n:
+            return ("huge-reverse", "reversed operator acts outside the register")
+        for r in c["rows"]:
+            r %= 2 ** n
+            want = {_bitrev(col, n): v for col, v in _ref_row(s, n, _bitrev(r, n)).items()}
+            d1 = _row_diff(_ref_row(t1, n, r), want)
+            if d1 > tol:
+                return ("huge-reverse", f"reverse_qubit_order(op, {n}): row {r} of its matrix is not the bit-reversal permutation of the matrix (diff {d1:.3g})")
+            d2 = _row_diff(_ref_row(t2, n, r), _ref_row(s, n, r))
+            if d2 > tol:
+                return ("huge-reverse", f"reversing twice changes row {r} of the operator's matrix on {n} qubits (diff {d2:.3g})")
+        return None
+    if "hc" not in out:
+        return ("huge-raise", f"hermitian_conjugated raised: {out}")
+    terms = _terms_from(out["hc"])
+    if _width(terms) > n:
+        return ("huge-hc", "hermitian conjugate acts on more qubits than the operator")
+    nonherm = 0.0
+    for r in c["rows"]:
+        r %= 2 ** max(n, 1)
+        # column r of A: term with flip mask f has its entry of column r in row r ^ f
+        col = {}
+        for t in s:
+            for rr, v in _ref_row([t], n, r).items():      # rr = r ^ f
+                for cc, vv in _ref_row([t], n, rr).items():  # entry (rr, r)
+                    if cc == r:
+                        col[rr] = col.get(rr, 0) + vv
+        want = {k: v.conjugate() for k, v in col.items()}
+        d = _row_diff(_ref_row(terms, n, r), want)
+        if d > tol:
+            return ("huge-hc", f"hermitian_conjugated(op): row {r} of its matrix differs from the conjugate-transposed matrix by {d:.3g} on {n} qubits")
+        nonherm = max(nonherm, _row_diff(_ref_row(s, n, r), want))
+    if _is_simplified(s):
+        if nonherm >= 1e-3 and out["herm"]:
+            return ("huge-herm-test", f"is_hermitian is True but the matrix differs from its conjugate transpose by {nonherm:.3g}")
+        if all(unrat(t["c"][1]) == 0 for t in s) and not out["herm"]:
+            return ("huge-herm-test", "is_hermitian is False for a real combination of Pauli strings (a Hermitian matrix)")
+    return None
+
+
 def _oracle_session(c, out):
     if "steps" not in out:
         return ("session-raise", f"a history of calls raised: {out}")
-    eqs = _replay(c)
+    eqs = _replay(c, out)
     for i, (st, eq, o) in enumerate(zip(c["steps"], eqs, out["steps"])):
+        if eq == STOP:
+            return None
         if eq is None:
             if "exc" in o and st["do"] != "poison":
                 return None  # an edit of the harness's own objects was refused: the book-keeping ends here, no verdict
@@ -1618,6 +2092,8 @@ def oracle(c, out):
         return _oracle_session(c, out)
     if k == "wide":
         return _oracle_wide(c, out)
+    if k == "huge":
+        return _oracle_huge(c, out)
     return _oracle_single(c, out)
 
 
@@ -1644,6 +2120,9 @@ def distribution(cases, outs):
         "padding_histogram": kinds,
         "session_steps": steps,
         "wide_cases": sum(1 for c in cases if c["kind"] == "wide"),
+        "wide_set_order_reversed_terms": sum(1 for c in cases if c["kind"] in ("wide", "huge") for t in c["sum"]
+                                             if list({q for q, _ in t["ops"]}) != sorted(q for q, _ in t["ops"])),
+        "huge_widths": sorted({(_width(c["sum"]) if c.get("n") is None else c["n"]) for c in cases if c["kind"] == "huge"}),
         "matrix_sizes": sorted({len(c["m"]) for c in cases if c["kind"] == "from_matrix"}),
         "matrix_forms": sorted({c.get("form", "list") for c in cases if c["kind"] == "from_matrix"}),
         "hermitian_true": sum(1 for o in outs if isinstance(o, dict) and o.get("herm") is True),
